@@ -56,19 +56,26 @@ Proof. induction sh; simpl; auto. Qed.
 (* ---- fmt ---------------------------------------------------------------------------------- *)
 (* The renderers look at the secret ONLY through the value's methods: on a safe (path, shape) two
    secrets on which the four methods agree are rendered identically. *)
-Definition methods_agree (M : methods) (s1 s2 : string) : Prop :=
+Definition methods_agree1 (M : methods) (s1 s2 : string) : Prop :=
   m_String M s1 = m_String M s2 /\ m_GoString M s1 = m_GoString M s2 /\
   m_MarshalText M s1 = m_MarshalText M s2 /\ m_MarshalBinary M s1 = m_MarshalBinary M s2.
+
+(* ... on the secret and on the second secret of a two-key map *)
+Definition methods_agree (M : methods) (s1 s2 : string) : Prop :=
+  methods_agree1 M s1 s2 /\ methods_agree1 M (second s1) (second s2).
 
 Section NI.
   Variable M : methods.
   Variables s1 s2 : string.
   Hypothesis HA : methods_agree M s1 s2.
 
-  Let aS : m_String M s1 = m_String M s2 := proj1 HA.
-  Let aG : m_GoString M s1 = m_GoString M s2 := proj1 (proj2 HA).
-  Let aT : m_MarshalText M s1 = m_MarshalText M s2 := proj1 (proj2 (proj2 HA)).
-  Let aB : m_MarshalBinary M s1 = m_MarshalBinary M s2 := proj2 (proj2 (proj2 HA)).
+  Let aS : m_String M s1 = m_String M s2 := proj1 (proj1 HA).
+  Let aG : m_GoString M s1 = m_GoString M s2 := proj1 (proj2 (proj1 HA)).
+  Let aT : m_MarshalText M s1 = m_MarshalText M s2 := proj1 (proj2 (proj2 (proj1 HA))).
+  Let aB : m_MarshalBinary M s1 = m_MarshalBinary M s2 := proj2 (proj2 (proj2 (proj1 HA))).
+  Let bS : m_String M (second s1) = m_String M (second s2) := proj1 (proj2 HA).
+  Let bG : m_GoString M (second s1) = m_GoString M (second s2) := proj1 (proj2 (proj2 HA)).
+  Let bT : m_MarshalText M (second s1) = m_MarshalText M (second s2) := proj1 (proj2 (proj2 (proj2 HA))).
 
   Lemma leaf_opaque_ni st verb :
     erroring st = false -> good_verb verb = true ->
@@ -80,12 +87,22 @@ Section NI.
     - now rewrite aS.
   Qed.
 
+  Lemma leaf_opaque_ni2 st verb :
+    erroring st = false -> good_verb verb = true ->
+    leaf_opaque M st verb true (second s1) = leaf_opaque M st verb true (second s2).
+  Proof.
+    intros He Hg. unfold leaf_opaque. rewrite He, Hg. simpl.
+    destruct (sharpV st).
+    - now rewrite bG.
+    - now rewrite bS.
+  Qed.
+
   Lemma pv_ni : forall sh st verb depth,
     erroring st = false -> good_verb verb = true -> no_unexported sh = true ->
     ptr_verb verb || no_deep_ptr sh depth = true ->
     pv M st verb sh depth false s1 = pv M st verb sh depth false s2.
   Proof.
-    induction sh as [|i IH|ex i IH|i IH|i IH|i IH| |i IH]; intros st verb depth He Hg Hn Hp;
+    induction sh as [|i IH|ex i IH|i IH|i IH|i IH| | |i IH]; intros st verb depth He Hg Hn Hp;
       cbn [pv no_unexported no_deep_ptr] in *.
     - rewrite orb_true_r. now apply leaf_opaque_ni.
     - rewrite orb_true_r. destruct (is_bare i).
@@ -102,6 +119,7 @@ Section NI.
     - now rewrite (IH st verb (S depth)).
     - now rewrite (IH st verb (S depth)).
     - cbn [negb]. now rewrite (leaf_opaque_ni st verb).
+    - cbn [negb]. now rewrite (leaf_opaque_ni st verb), (leaf_opaque_ni2 st verb).
     - now apply IH.
   Qed.
 
@@ -119,21 +137,21 @@ Section NI.
   (* ---- json / yaml / confmap / zap ------------------------------------------------------- *)
   Lemma js_ni html : forall sh, no_mapkey sh = true -> js M html sh s1 = js M html sh s2.
   Proof.
-    induction sh as [|i IH|ex i IH|i IH|i IH|i IH| |i IH]; intros Hn; simpl in *; try discriminate;
+    induction sh as [|i IH|ex i IH|i IH|i IH|i IH| | |i IH]; intros Hn; simpl in *; try discriminate;
       try (now rewrite (IH Hn)).
     now rewrite aT.
   Qed.
 
   Lemma yaml_ni : forall sh, yaml_tree M sh s1 = yaml_tree M sh s2.
   Proof.
-    induction sh as [|i IH|ex i IH|i IH|i IH|i IH| |i IH]; simpl; try (now rewrite IH);
-      now rewrite aT.
+    induction sh as [|i IH|ex i IH|i IH|i IH|i IH| | |i IH]; simpl; try (now rewrite IH);
+      now rewrite ?aT, ?bT.
   Qed.
 
   Lemma conf_ni : forall sh, conf_tree M sh s1 = conf_tree M sh s2.
   Proof.
-    induction sh as [|i IH|ex i IH|i IH|i IH|i IH| |i IH]; simpl; try (now rewrite IH);
-      try reflexivity; now rewrite aT.
+    induction sh as [|i IH|ex i IH|i IH|i IH|i IH| | |i IH]; simpl; try (now rewrite IH);
+      try reflexivity; now rewrite ?aT, ?bT.
   Qed.
 
   Lemma render_ni_agree : forall p sh, safe p sh = true -> render M p sh s1 = render M p sh s2.
@@ -159,7 +177,7 @@ Lemma render_ni : forall M, methods_constant M ->
   forall p sh s1 s2, safe p sh = true -> render M p sh s1 = render M p sh s2.
 Proof.
   intros M HC p sh s1 s2. apply render_ni_agree.
-  repeat split; [apply (mc_String M HC)|apply (mc_GoString M HC)|apply (mc_MarshalText M HC)|apply (mc_MarshalBinary M HC)].
+  repeat split; first [apply (mc_String M HC)|apply (mc_GoString M HC)|apply (mc_MarshalText M HC)|apply (mc_MarshalBinary M HC)].
 Qed.
 
 (* ---- the marker is shown ---------------------------------------------------------------------- *)
@@ -196,7 +214,7 @@ Section Shows.
     erroring st = false -> good_verb verb = true -> no_unexported sh = true -> fmt_reaches sh depth = true ->
     contains (leaf_opaque M st verb true s) (pv M st verb sh depth false s).
   Proof.
-    induction sh as [|i IH|ex i IH|i IH|i IH|i IH| |i IH]; intros st verb depth s He Hg Hn Hr;
+    induction sh as [|i IH|ex i IH|i IH|i IH|i IH| | |i IH]; intros st verb depth s He Hg Hn Hr;
       cbn [pv no_unexported fmt_reaches] in *.
     - rewrite orb_true_r. auto with cont.
     - rewrite orb_true_r. destruct (is_bare i).
@@ -209,6 +227,7 @@ Section Shows.
     - specialize (IH st verb (S depth) s He Hg Hn Hr). destruct (sharpV st); cont_with ltac:(exact IH).
     - specialize (IH st verb (S depth) s He Hg Hn Hr). destruct (sharpV st); cont_with ltac:(exact IH).
     - specialize (IH st verb (S depth) s He Hg Hn Hr). destruct (sharpV st); cont_with ltac:(exact IH).
+    - destruct (sharpV st); cont_with ltac:(apply contains_refl).
     - destruct (sharpV st); cont_with ltac:(apply contains_refl).
     - now apply IH.
   Qed.
@@ -225,7 +244,7 @@ Section Shows.
   Lemma js_shows html : forall sh s, no_unexported sh = true -> no_mapkey sh = true ->
     contains (json_quote html (m_MarshalText M s)) (js M html sh s).
   Proof.
-    induction sh as [|i IH|ex i IH|i IH|i IH|i IH| |i IH]; intros s Hn Hk; simpl in *; try discriminate;
+    induction sh as [|i IH|ex i IH|i IH|i IH|i IH| | |i IH]; intros s Hn Hk; simpl in *; try discriminate;
       auto 8 with cont.
     apply andb_true_iff in Hn. destruct Hn as [Hex Hn]. subst ex. auto 8 with cont.
   Qed.
@@ -233,26 +252,37 @@ Section Shows.
   Lemma yaml_shows : forall sh s, no_unexported sh = true ->
     contains (m_MarshalText M s) (canon (yaml_tree M sh s)).
   Proof.
-    induction sh as [|i IH|ex i IH|i IH|i IH|i IH| |i IH]; intros s Hn; simpl in *; auto 8 with cont.
+    induction sh as [|i IH|ex i IH|i IH|i IH|i IH| | |i IH]; intros s Hn; simpl in *; auto 8 with cont.
     apply andb_true_iff in Hn. destruct Hn as [Hex Hn]. subst ex. simpl. auto 8 with cont.
   Qed.
 
   Lemma conf_shows : forall sh s, no_unexported sh = true -> no_array sh = true ->
-    contains (m_MarshalText M s) (canon (conf_tree M sh s)).
+    exists t, conf_tree M sh s = COk t /\ contains (m_MarshalText M s) (canon t).
   Proof.
-    induction sh as [|i IH|ex i IH|i IH|i IH|i IH| |i IH]; intros s Hn Ha; simpl in *; try discriminate; auto 8 with cont.
-    apply andb_true_iff in Hn. destruct Hn as [Hex Hn]. subst ex. simpl. auto 8 with cont.
+    induction sh as [|i IH|ex i IH|i IH|i IH|i IH| | |i IH]; intros s Hn Ha; cbn [conf_tree no_unexported no_array] in *;
+      try discriminate; try (now apply IH).
+    - eexists; split; [reflexivity|]. simpl. auto 8 with cont.
+    - apply andb_true_iff in Hn. destruct Hn as [Hex Hn]. subst ex.
+      destruct (IH s Hn Ha) as [t [E C]]. rewrite E. eexists; split; [reflexivity|]. simpl. auto 8 with cont.
+    - destruct (IH s Hn Ha) as [t [E C]]. rewrite E. eexists; split; [reflexivity|]. simpl. auto 8 with cont.
+    - destruct (IH s Hn Ha) as [t [E C]]. rewrite E. eexists; split; [reflexivity|]. simpl. auto 8 with cont.
+    - eexists; split; [reflexivity|]. simpl. auto 8 with cont.
   Qed.
 
-  Lemma conf_tree_is_map : forall sh s, encodes_to_map sh = true -> no_array sh = true ->
-    exists l, conf_tree M sh s = TMap l.
+  Lemma conf_tree_is_map : forall sh s t, conf_tree M sh s = COk t -> encodes_to_map sh = true ->
+    exists l, t = TMap l.
   Proof.
     assert (D : forall sh s, conf_tree M (dyn sh) s = conf_tree M sh s) by (induction sh; simpl; auto).
-    intros sh s H Ha. unfold encodes_to_map in H. rewrite <- D.
-    destruct (dyn sh) as [|i|ex i|i|i|i| |i]; simpl in *; try discriminate; eauto.
-    - rewrite <- D. destruct (dyn i) as [|j|ex j|j|j|j| |j]; simpl in *; try discriminate; eauto.
-      destruct ex; eauto.
-    - destruct ex; eauto.
+    assert (K : forall sh s t, conf_tree M sh s = COk t ->
+                match sh with SField _ _ | SMapVal _ | SMapKey => True | _ => False end -> exists l, t = TMap l).
+    { intros sh s t E. destruct sh as [|i|ex i|i|i|i| | |i]; try contradiction; intros _; cbn [conf_tree] in E.
+      - destruct ex; [destruct (conf_tree M i s); simpl in E|]; inversion E; eauto.
+      - destruct (conf_tree M i s); simpl in E; inversion E; eauto.
+      - inversion E; eauto. }
+    intros sh s t E H. unfold encodes_to_map in H. rewrite <- D in E.
+    destruct (dyn sh) as [|i|ex i|i|i|i| | |i] eqn:Ed; try discriminate; try (now apply (K _ _ _ E)).
+    cbn [conf_tree] in E. rewrite <- D in E.
+    destruct (dyn i) as [|j|ex j|j|j|j| | |j] eqn:Ei; try discriminate; now apply (K _ _ _ E).
   Qed.
 
   Lemma render_shows : forall p sh s, shows p sh = true -> contains (leaf_text M p s) (render M p sh s).
@@ -265,8 +295,8 @@ Section Shows.
     - apply andb_true_iff in H. destruct H as [Hn Hk]. now apply js_shows.
     - now apply yaml_shows.
     - apply andb_true_iff in H. destruct H as [H Hm]. apply andb_true_iff in H. destruct H as [Hn Ha].
-      unfold render_confmap. destruct (conf_tree_is_map sh s Hm Ha) as [l E].
-      generalize (conf_shows sh s Hn Ha). rewrite E. auto.
+      unfold render_confmap. destruct (conf_shows sh s Hn Ha) as [t [E C]]. rewrite E.
+      destruct (conf_tree_is_map sh s t E Hm) as [l El]. subst t. exact C.
     - apply andb_true_iff in H. destruct H as [Hn Hk]. unfold zap_line. auto 8 using js_shows with cont.
     - unfold zap_line. auto 8 with cont.
   Qed.
@@ -389,11 +419,27 @@ Lemma ni_refuted_l : exists p sh s1 s2, p <> PCast /\ render opaque p sh s1 <> r
 Proof. exists (PFmt "d" no_flags), SBare, "a", "b". split; [discriminate|]. vm_compute. discriminate. Qed.
 
 (* ---- decoding -------------------------------------------------------------------------------- *)
-Lemma unmarshal_partial_l : forall M u t, u <> UConfSquashUnmarshaler -> unmarshal M u t = t.
-Proof. intros M u t H. destruct u; try reflexivity. contradiction. Qed.
+Definition plain_ctx (u : uctx) : bool :=
+  match u with
+  | UConfSquashUnmarshaler | UExpInline | UExpPtr YNull | UExpPtr YOther => false
+  | _ => true
+  end.
 
-Lemma unmarshal_squash_l : forall t, unmarshal opaque UConfSquashUnmarshaler t = marker.
+Lemma unmarshal_partial_l : forall M u t, plain_ctx u = true -> unmarshal M u t = Stored t.
+Proof. intros M u t H. destruct u as [| | | | | | | | | |[| |]]; try reflexivity; discriminate. Qed.
+
+Lemma unmarshal_inline_l : forall M t, unmarshal M UExpInline t = Stored ("pre-" ++ t ++ "-post").
+Proof. reflexivity. Qed.
+
+Lemma unmarshal_squash_l : forall t, unmarshal opaque UConfSquashUnmarshaler t = Stored marker.
 Proof. intros t. reflexivity. Qed.
 
-Lemma unmarshal_refuted_l : exists u t, unmarshal opaque u t <> t.
-Proof. exists UConfSquashUnmarshaler, "secret". vm_compute. discriminate. Qed.
+Lemma unmarshal_ptr_l : forall M t, unmarshal M (UExpPtr YNull) t = NilPtr /\ unmarshal M (UExpPtr YOther) t = DecodeError.
+Proof. intros; split; reflexivity. Qed.
+
+Lemma unmarshal_refuted_l : exists u t, u <> UExpInline /\ unmarshal opaque u t <> Stored t.
+Proof. exists UConfSquashUnmarshaler, "secret". split; [discriminate|]. vm_compute. discriminate. Qed.
+
+(* ---- use ----------------------------------------------------------------------------------------- *)
+Lemma use_identity_l : forall c s, use c s = s.
+Proof. reflexivity. Qed.
